@@ -691,7 +691,11 @@ func (x *executor) report(cs *caseSpec, rels []rel, clause string, sev severity,
 		k := sigClass(cs.ops[i].k)
 		switch {
 		case primary(r):
-			inter = append(inter, cs.m.pos[i]+"="+k+":"+sigRel(r))
+			d := cs.m.pos[i] + "=" + k + ":" + sigRel(r)
+			if cs.m.copyLike && (r == relSame || r == relPartial) {
+				d += copyGeom(cs.recv.w, cs.ops[i].w)
+			}
+			inter = append(inter, d)
 		case r == relIdent:
 			others = append(others, k+":identical")
 		default:
@@ -731,6 +735,41 @@ func (x *executor) report(cs *caseSpec, rels []rel, clause string, sev severity,
 }
 
 var debugStrides = os.Getenv("C05_DEBUG_STRIDES") != ""
+
+// copyGeom refines the path class of an overlapping Copy-family call by
+// the geometry that decides whether a forward or backward element loop is
+// safe: where the source starts relative to the receiver in memory
+// (src-before / src-after / same-start), whether the two views have the same
+// stride (inc), and whether the start offset is a whole number of receiver
+// rows (row-shift), less than one row (col-shift) or both (mixed-shift).
+// None of this depends on the seed; every combination that exists in the
+// enumerated backings is enumerated in the thorough tier.
+func copyGeom(recv, src win) string {
+	d := src.off - recv.off
+	pos := "same-start"
+	switch {
+	case d < 0:
+		pos, d = "src-before", -d
+	case d > 0:
+		pos = "src-after"
+	}
+	st := "eq-stride"
+	if recv.st != src.st {
+		st = "diff-stride"
+	}
+	shift := ""
+	if d != 0 {
+		switch {
+		case d%recv.st == 0:
+			shift = ",row-shift"
+		case d < recv.st:
+			shift = ",col-shift"
+		default:
+			shift = ",mixed-shift"
+		}
+	}
+	return "[" + pos + "," + st + shift + "]"
+}
 
 // sigRel merges "same-region" and "partial" into "overlap" for signatures
 // (a method that lacks a check misbehaves on both; same-region witnesses are
